@@ -37,6 +37,10 @@ def work(tier, seed):
             continue
         for gi, kind in enumerate(b["grids"]):
             items.append({"blocks": [list(x) for x in bl], "grid": kind, "scalars": gi == 0, "mutated": gi == 0})
+        # classes stored in different dtypes, the narrower one unable to hold the other's values (small order types in quick)
+        if tier != "quick" or sum(a + c for a, c in bl) <= 4:
+            for kind in ot.MIXED_KINDS[1:]:
+                items.append({"blocks": [list(x) for x in bl], "grid": kind, "scalars": False, "mutated": False})
     for n in (ot.LADDER_QUICK[:5] if tier == "quick" else ot.LADDER_THOROUGH[:-1]):
         for tf in (True, False):
             items.append({"ladder": n, "tie_free": tf, "scalars": False})
